@@ -374,6 +374,91 @@ pub fn run(ctx: &Ctx) -> Result<Ev, String> {
             }
         }
     }
+    // context leg: the same forms where the bookkeeping around them differs — first item after an
+    // `.org`, after excursions into the other segments, registers spelled through aliases (defined in
+    // the code or in the data segment), and under full-featured devices
+    {
+        use proptest::prelude::RngCore;
+        let devs = crate::props::c13::devices();
+        let mut rng = crate::par::rng_for(ctx.seed, "C01-context", 0);
+        for s in spaces.iter() {
+            let mut idx = vec![0, s.len / 2, s.len - 1];
+            for _ in 0..3 {
+                idx.push(rng.next_u64() % s.len);
+            }
+            idx.sort();
+            idx.dedup();
+            for (n, i) in idx.into_iter().enumerate() {
+                let c = (s.get)(i);
+                let dev_line = s.device.map(|d| format!(".device {}\n", d)).unwrap_or_default();
+                let mut variants: Vec<(&str, String, i64, Vec<u8>)> = vec![]; // (context, source, pc, bytes in front)
+                {
+                    let (line, _) = render_line(&c, 0x10);
+                    variants.push(("first-after-org", format!("{}.org 0x10\n{}\n", dev_line, line), 0x10, vec![0; 0x20]));
+                    let (line, _) = render_line(&c, 1);
+                    if s.device.is_none() {
+                        variants.push(("after-eeprom-excursion", format!("nop\n.eseg\n.db 1\n.cseg\n{}\n", line), 1, vec![0, 0]));
+                    }
+                    let (line, _) = render_line(&c, 0x21);
+                    variants.push(("after-data-excursion-and-org", format!("{}.dseg\n.byte 1\n.cseg\n.org 0x21\n{}\n", dev_line, line), 0x21, vec![0; 0x42]));
+                    let (line, _) = render_line(&c, 3);
+                    variants.push(("second-code-segment-continued", format!("{}nop\n.dseg\n.cseg\nnop\n.eseg\n.cseg\nnop\n{}\n", dev_line, line), 3, vec![0; 6]));
+                }
+                // aliases
+                if c.ops.iter().any(|o| matches!(o, Opd::R(_))) {
+                    for (tag, open, close) in [("alias-defined-in-code-segment", "", ""), ("alias-defined-in-data-segment", ".dseg\n", ".cseg\n")] {
+                        let mut pre = String::from(open);
+                        let mut c2 = c.clone();
+                        let (line, _) = render_line(&c2, 0);
+                        let mut text = line.clone();
+                        // replace register operands right to left in the operand list of the rendered line
+                        let (head, tail) = match text.split_once(' ') {
+                            Some((h, t)) => (h.to_string(), t.to_string()),
+                            None => (text.clone(), String::new()),
+                        };
+                        let mut parts: Vec<String> = tail.split(", ").map(|x| x.to_string()).collect();
+                        for (k, o) in c2.ops.iter_mut().enumerate() {
+                            if let Opd::R(r) = o {
+                                pre.push_str(&format!(".def C01_al{} = r{}\n", k, r));
+                                parts[k] = format!("c01_AL{}", k);
+                            }
+                        }
+                        pre.push_str(close);
+                        text = format!("{} {}", head, parts.join(", "));
+                        variants.push((tag, format!("{}{}{}\n", dev_line, pre, text), 0, vec![]));
+                    }
+                }
+                // full-featured devices (forms the device lacks are C13's business)
+                if s.device.is_none() {
+                    let dname = ["ATmega2560", "ATmega128", "ATmega328P", "ATmega8", "ATtiny2313"][n % 5];
+                    if let Some(d) = devs.iter().find(|d| d.name == dname) {
+                        let (line, ops) = render_line(&c, 0);
+                        if !isa::gate(&d.flags, &c.m, &ops) {
+                            variants.push(("under-a-device", format!(".device {}\n{}\n", dname, line), 0, vec![]));
+                        }
+                    }
+                }
+                for (tag, src, pc, front) in variants {
+                    let (_, ops) = render_line(&c, pc);
+                    let words = match isa::assemble(&c.m, &ops, s.core, pc) {
+                        Verdict::Legal(w) | Verdict::Either(w) => w,
+                        Verdict::Illegal => continue,
+                    };
+                    let mut expected = front.clone();
+                    for w in &words {
+                        expected.push((*w & 0xff) as u8);
+                        expected.push((*w >> 8) as u8);
+                    }
+                    total.eval();
+                    total.class(&format!("context:{}", tag));
+                    let chk = Check::image_code(src.clone(), expected);
+                    if let Err(why) = chk.eval() {
+                        total.violation(Violation { sig: format!("enc:{}{}:context:{}", c.m, if s.core == Core::Avr8l { ":avr8l" } else { "" }, tag), what: format!("`{}`: {}", src.replace('\n', " | "), why), replay: chk.to_json() });
+                    }
+                }
+            }
+        }
+    }
     total.extra.insert("forms".into(), json!(spaces.len()));
     Ok(total)
 }
